@@ -32,7 +32,7 @@ var fwdBodies = []string{"fwd-call", "fwd-call-value", "fwd-callcode", "fwd-dele
 
 func isFwd(b string) bool { return len(b) > 4 && b[:4] == "fwd-" }
 
-func bodyCode(name string, next [20]byte) []byte {
+func bodyCode(name string, next address) []byte {
 	a := newAsm()
 	switch name {
 	case "store":
@@ -108,7 +108,7 @@ var outAreaFill = bigHex("eeeeeeeeeeeeeeeeeeeeeeeeeeeeeeeeeeeeeeeeeeeeeeeeeeeeee
 // callerCode: contract A.  Performs ONE call/create and makes the result
 // observable: storage[0x10] = result word; returns result ‖ RETURNDATASIZE ‖
 // word of the output area ‖ return data.
-func callerCode(op int, value uint64, target [20]byte, init []byte) []byte {
+func callerCode(op int, value uint64, target address, init []byte) []byte {
 	a := newAsm()
 	switch op {
 	case opCREATE, opCREATE2:
@@ -151,7 +151,7 @@ func callerCode(op int, value uint64, target [20]byte, init []byte) []byte {
 
 type namedData struct {
 	name string
-	data string
+	data []byte
 }
 
 func pad32(b []byte) []byte {
@@ -162,12 +162,12 @@ func pad32(b []byte) []byte {
 
 func precompileInputs() []namedData {
 	var out []namedData
-	out = append(out, namedData{"zeros128", hexs(make([]byte, 128))})
+	out = append(out, namedData{"zeros128", make([]byte, 128)})
 	ff := make([]byte, 128)
 	for i := range ff {
 		ff[i] = 0xff
 	}
-	out = append(out, namedData{"ff128", hexs(ff)})
+	out = append(out, namedData{"ff128", ff})
 	// a genuine signature for ECRECOVER
 	key, err := refcrypto.ToECDSA(pad32([]byte{0x42, 0x17}))
 	if err != nil {
@@ -181,20 +181,20 @@ func precompileInputs() []namedData {
 	ec := append([]byte{}, h...)
 	ec = append(ec, pad32([]byte{sig[64] + 27})...)
 	ec = append(ec, sig[:64]...)
-	out = append(out, namedData{"ecrecover-valid", hexs(ec)})
+	out = append(out, namedData{"ecrecover-valid", ec})
 	// bn256: generator + generator (valid for ADD; for MUL: generator × 1... the third word is the scalar)
 	g1 := new(refbn256.G1).ScalarBaseMult(big.NewInt(1)).Marshal()
-	out = append(out, namedData{"bn256-g1-g1", hexs(append(append([]byte{}, g1...), g1...))})
+	out = append(out, namedData{"bn256-g1-g1", append(append([]byte{}, g1...), g1...)})
 	// modexp: 3^5 mod 7 with 1-byte operands
 	me := append(append(append([]byte{}, pad32([]byte{1})...), pad32([]byte{1})...), pad32([]byte{1})...)
 	me = append(me, 3, 5, 7)
-	out = append(out, namedData{"modexp-3-5-7", hexs(me)})
+	out = append(out, namedData{"modexp-3-5-7", me})
 	// pairing: e(P,Q)·e(−P,Q) = 1
 	g2 := new(refbn256.G2).ScalarBaseMult(big.NewInt(1)).Marshal()
 	neg := new(refbn256.G1).Neg(new(refbn256.G1).ScalarBaseMult(big.NewInt(1))).Marshal()
 	pr := append(append(append(append([]byte{}, g1...), g2...), neg...), g2...)
-	out = append(out, namedData{"pairing-true", hexs(pr)})
-	out = append(out, namedData{"pairing-one-pair", hexs(append(append([]byte{}, g1...), g2...))})
+	out = append(out, namedData{"pairing-true", pr})
+	out = append(out, namedData{"pairing-one-pair", append(append([]byte{}, g1...), g2...)})
 	return out
 }
 
@@ -217,13 +217,13 @@ func yesno(b bool) string {
 	return "no"
 }
 
-func precompileAddr(n int) [20]byte {
-	var a [20]byte
+func precompileAddr(n int) address {
+	var a address
 	a[19] = byte(n)
 	return a
 }
 
-func targetAddr(t string) [20]byte {
+func targetAddr(t string) address {
 	switch t {
 	case "A":
 		return addrA
@@ -242,7 +242,7 @@ func targetAddr(t string) [20]byte {
 }
 
 func family3Case(s f3Spec, mode string) *txCase {
-	k := &txCase{Family: "callgraph", Mode: mode, Input: s.Data.data, To: hexAddr(addrA)}
+	k := &txCase{Family: "callgraph", Mode: mode, Input: s.Data.data, To: addrA}
 	bodyB, bodyC := s.BodyB, s.BodyC
 	if bodyB == "" {
 		bodyB = "return-ctx"
@@ -261,11 +261,11 @@ func family3Case(s f3Spec, mode string) *txCase {
 		balA = 0
 	}
 	k.Pre = []account{
-		{Addr: hexAddr(addrOrigin), Balance: 1000000, Nonce: 5},
-		{Addr: hexAddr(addrA), Balance: balA, Nonce: 1, Code: hexs(codeA), Storage: [][2]string{{word(1), word(0x11)}}},
-		{Addr: hexAddr(addrB), Balance: 5, Nonce: 1, Code: hexs(bodyCode(bodyB, addrC)), Storage: [][2]string{{word(1), word(0x22)}}},
-		{Addr: hexAddr(addrC), Balance: 5, Nonce: 1, Code: hexs(bodyCode(bodyC, addrB)), Storage: [][2]string{{word(1), word(0x33)}}},
-		{Addr: hexAddr(addrF), Balance: 3},
+		{Addr: addrOrigin, Balance: 1000000, Nonce: 5},
+		{Addr: addrA, Balance: balA, Nonce: 1, Code: codeA, Storage: []slot{{wordU(1), wordU(0x11)}}},
+		{Addr: addrB, Balance: 5, Nonce: 1, Code: bodyCode(bodyB, addrC), Storage: []slot{{wordU(1), wordU(0x22)}}},
+		{Addr: addrC, Balance: 5, Nonce: 1, Code: bodyCode(bodyC, addrB), Storage: []slot{{wordU(1), wordU(0x33)}}},
+		{Addr: addrF, Balance: 3},
 	}
 	if s.Prestate == "collide" {
 		var at refcommon.Address
@@ -276,7 +276,7 @@ func family3Case(s f3Spec, mode string) *txCase {
 			salt[30], salt[31] = 0x5a, 0x17
 			at = refcrypto.CreateAddress2(refcommon.BytesToAddress(addrA[:]), salt, refcrypto.Keccak256(init))
 		}
-		k.Pre = append(k.Pre, account{Addr: hexs(at[:]), Nonce: 1, Balance: 2})
+		k.Pre = append(k.Pre, account{Addr: address(at), Nonce: 1, Balance: 2})
 	}
 	// signature: the leaf behaviour of the call chain, the instruction that enters
 	// the leaf frame, the depth of the leaf frame and whether a STATICCALL is on the way
@@ -314,7 +314,7 @@ func family3Case(s f3Spec, mode string) *txCase {
 func family3Specs() []f3Spec {
 	var out []f3Spec
 	pre := precompileInputs()
-	generic := []namedData{{"empty", ""}, {"word5+selector", calldataPattern[:72]}}
+	generic := []namedData{{"empty", nil}, {"selector+word", calldataPattern[:36]}}
 	type ov struct {
 		op    int
 		value uint64
@@ -380,10 +380,10 @@ func family3TopCreates(mode string) []*txCase {
 	var out []*txCase
 	for _, b := range append(append([]string{}, plainBodies...), fwdBodies...) {
 		for _, v := range []uint64{0, 1} {
-			k := &txCase{Family: "callgraph", Mode: mode, Create: true, Input: hexs(bodyCode(b, addrC)), Value: v}
+			k := &txCase{Family: "callgraph", Mode: mode, Create: true, Input: bodyCode(b, addrC), Value: v}
 			k.Pre = []account{
-				{Addr: hexAddr(addrOrigin), Balance: 1000000, Nonce: 5},
-				{Addr: hexAddr(addrC), Balance: 5, Nonce: 1, Code: hexs(bodyCode("return-ctx", addrB))},
+				{Addr: addrOrigin, Balance: 1000000, Nonce: 5},
+				{Addr: addrC, Balance: 5, Nonce: 1, Code: bodyCode("return-ctx", addrB)},
 			}
 			k.Label = fmt.Sprintf("creation transaction, init code = %s, value %d", b, v)
 			k.Sig = map[string]string{"family": "callgraph", "config": mode, "op": "TX-CREATE", "via": "TX-CREATE", "leaf": b, "depth": "1", "static": "no"}
